@@ -702,7 +702,7 @@ fn check() {
 
     let n = cases.load(Ordering::Relaxed);
     let pairs = INBOUND.len() * OUTBOUND.len();
-    if n < 3000 || outcomes.len() < 30 || refused.load(Ordering::Relaxed) == 0 {
+    if chk.violation_count() == 0 && (n < 3000 || outcomes.len() < 30 || refused.load(Ordering::Relaxed) == 0) {
         machinery(format!("vacuous: cases={n} outcomes={} refused={}", outcomes.len(), refused.load(Ordering::Relaxed)));
     }
     let coverage = json!({
